@@ -160,6 +160,9 @@ func (t *CPUTensor) Slice(index []tensor.Range) (o tensor.Tensor, err error) {
 		return
 	}
 
+	// the backward rule keeps the index; decouple it from the caller's slice
+	index = copiedIndex(index)
+
 	r := t.slice(index)
 	r.gctx = gradtrack.Slice(r, t, index)
 
@@ -178,6 +181,9 @@ func (t *CPUTensor) Patch(index []tensor.Range, u tensor.Tensor) (o tensor.Tenso
 		err = fmt.Errorf("Patch input index or tensors' dimension validation failed: %w", err)
 		return
 	}
+
+	// the backward rules keep the index; decouple it from the caller's slice
+	index = copiedIndex(index)
 
 	r := t.patch(index, cu)
 	r.gctx = gradtrack.Patch(r, t, u, index)
